@@ -1,6 +1,7 @@
 import UF.Driver.Decode
 import UF.Model.Match
 import UF.Model.ParseOptions
+import UF.Model.NewRule
 import UF.Spec.Match
 /- Ops of work group E (see notes/AGENT_GUIDE.md). Return `none` for ops of other groups. -/
 namespace UF.Ops
@@ -134,11 +135,52 @@ def opC04TextMatch (args : List W) : String :=
     | _, _, _, _, _, _, _, _, _ => "bad-decode"
   | _ => "bad-arity"
 
+/-- trim table: `((string TrimSpace(string))…)`; an unknown key is returned unchanged (a wrong
+    model split then shows as a disagreement). -/
+def decTrimTable (w : W) : Option (List (Bytes × Bytes)) := do
+  let xs ← w.list?
+  xs.mapM fun e => match e with
+    | .l [s, t] => do pure (← s.bytes?, ← t.bytes?)
+    | _ => none
+
+def trimOf (tbl : List (Bytes × Bytes)) (k : Bytes) : Bytes :=
+  match tbl.find? (·.1 == k) with
+  | some (_, v) => v
+  | none => k
+
+/-- `c12.newrule <line> <listID> <trim table> <H|err> <addrs> <prefixes> <rewrites> <reshortcuts>`:
+    the model of `rules.NewRule`; `TrimSpace` and `NewHostRule` are oracles (groups D and H). -/
+def opC12NewRule (args : List W) : String :=
+  match args with
+  | [line, id, trims, host, addrs, prefixes, rewrites, shortcuts] =>
+    let hostRule : Option (Option HostRule) :=
+      match host with
+      | .a "err" => some none
+      | h => (decHostRule h).map some
+    match line.bytes?, id.int?, decTrimTable trims, hostRule, decAddrTable addrs, decPrefixTable prefixes,
+        decRewriteTable rewrites, decShortcutTable shortcuts with
+    | some line, some id, some trims, some hostRule, some addrs, some prefixes, some rewrites, some shortcuts =>
+      let rx : RuleExt := {
+        px := mkParseExt [] addrs prefixes rewrites shortcuts []
+        trim := trimOf trims
+        newHostRule := fun _ _ => hostRule }
+      let out := match newRule rx line id with
+        | .ok none => "none"
+        | .ok (some r) =>
+          let kind := match r with | .net _ => "net" | .host _ => "host" | .cos _ => "cos"
+          kind ++ ":" ++ outBytes r.text ++ ":" ++ toString r.listID
+        | .error .err => "err"
+        | .error .panic => "PANIC"
+      out ++ " -"
+    | _, _, _, _, _, _, _, _ => "bad-decode"
+  | _ => "bad-arity"
+
 def dispatchE (op : String) (args : List W) : Option String :=
   match op with
   | "c04.match" => some (opC04Match args)
   | "c04.parse" => some (opC04Parse args)
   | "c04.textmatch" => some (opC04TextMatch args)
+  | "c12.newrule" => some (opC12NewRule args)
   | _ => none
 
 end UF.Ops
